@@ -7,7 +7,8 @@ from runner import Violation
 LEVEL = "proof"
 LEAN_MODULES = ["FsDb.Properties.C05"]
 TIES = ["core_Load", "seq_Set", "seq_Next", "inline_New", "inline_Close", "repo_file_GetAll", "codec_unmarshalFile",
-        "dirrepo_New", "app_New", "app_Stop", "core_Store", "core_storeToTx"]
+        "dirrepo_New", "app_New", "app_Stop", "core_Store", "core_storeToTx", "core_UpdateTx", "core_DeleteTx", "tx_Commit",
+        "tx_Rollback", "tx_Begin", "repo_file_Set", "badger_RunTransaction", "badger_Set", "cleaner_deleteFile"]
 TRUSTED_BASE = seqprop.SEQ_TRUSTED + ["multi-database process model: the driver threads one process-global counter through all databases (Driver/Main.lean stepMdb); each segment between restarts runs in a fresh OS process"]
 ASSUMPTIONS = ["clean Close before Open (crashes are C04)", "fault-free storage"]
 
@@ -43,7 +44,7 @@ def correspond(ctx):
         else:
             violations.append(Violation("c05-model-tie", "real database and concrete model disagree on `%s` (impl `%s`, model `%s`)" % (ops[i], impl[i][:60], model[i][:60]), rp, found_input=False))
     cov = {"evaluations": stats["lines"], "distinct_nontrivial": stats["histories"],
-           "rule": "histories over 1-3 databases (autocommit Set/Delete/gc, Close/Open at random positions, process restarts = fresh OS processes), observer reads after every step; the witness of the repaired counter defect runs first; non-trivial = every history (each has >= 1 restart and >= 1 reopen)",
+           "rule": "histories over 1-3 databases (autocommit and transactional Set/Delete of all four levels, Commit/Rollback, gc, Close/Open at random positions also with transactions open, process restarts = fresh OS processes), observer reads after every step; the witness of the repaired counter defect runs first; non-trivial = every history (each has >= 1 restart and >= 1 reopen)",
            "traces_validated_against_impl": stats["lines"], "distribution": stats,
            "samples": [{"history_prefix": ops[:25], "impl": impl[:25]}],
            "summary": "%d histories / %d lines / %d process restarts: impl = model = spec" % (stats["histories"], stats["lines"], stats["restarts"])}
